@@ -112,7 +112,6 @@ class ThreadWorker(base.Worker):
         fs.add_done_callback(self.finish_request)
 
     def enqueue_req(self, conn):
-        conn.init()
         # submit the connection to a worker
         fs = self.tpool.submit(self.handle, conn)
         self._wrap_future(fs, conn)
@@ -277,6 +276,9 @@ class ThreadWorker(base.Worker):
         keepalive = False
         req = None
         try:
+            # in the handler thread, under the error handling below: wrapping
+            # the socket can fail (TLS handshake with a hostile client)
+            conn.init()
             req = next(conn.parser)
             if not req:
                 return (False, conn)
